@@ -128,7 +128,9 @@ def st_case(draw):
             "dtype": dtype, "as_tuple": draw(st.booleans()), "seed": draw(A.seeds),
             "d": draw(_values(dshape, dtype)), "f": draw(_values(fshape, dtype)),
             "dlayout": draw(st.sampled_from(A.LAYOUTS)), "flayout": draw(st.sampled_from(A.LAYOUTS)),
-            "positional": draw(st.sampled_from([False, False, True]))}
+            "positional": draw(st.sampled_from([False, False, True])),
+            "dscale": draw(st.sampled_from([1.0] * 6 + [2.0 ** -34, 2.0 ** -24, 2.0 ** 24] + ([2.0 ** -50] if dtype in ("float64", "complex128") else []))),
+            "fscale": draw(st.sampled_from([1.0] * 6 + [2.0 ** -34, 2.0 ** -24, 2.0 ** 24] + ([2.0 ** -50] if dtype in ("float64", "complex128") else [])))}
 
 
 # ------------------------------------------------------------------ oracle
@@ -327,8 +329,13 @@ def check_case(case):
     dshape = batch + ((ci,) if mc else ()) + m
     fshape = ((co, ci) if mc else ()) + n
     # the caller's data / filter arrays in the generated memory layouts (same values)
-    d = A.relayout(_vals(case["d"]), case.get("dlayout", "c"))
-    f = A.relayout(_vals(case["f"]), case.get("flayout", "c"))
+    # overall magnitude of data / filter (exact powers of two: the exact convolution simply scales; small units such as
+    # 1e-9 T or a nearly-real complex filter are ordinary inputs)
+    dsc, fsc = float(case.get("dscale", 1.0)), float(case.get("fscale", 1.0))
+    d = A.relayout((_vals(case["d"]) * dsc).astype(dt), case.get("dlayout", "c"))
+    f = A.relayout((_vals(case["f"]) * fsc).astype(dt), case.get("flayout", "c"))
+    if dsc != 1.0 or fsc != 1.0:
+        r.label("scaled:d=2^%d,f=2^%d" % (int(round(np.log2(dsc))), int(round(np.log2(fsc)))))
     if case.get("dlayout", "c") != "c" or case.get("flayout", "c") != "c":
         r.label("layout:data=%s,filt=%s" % (case.get("dlayout", "c"), case.get("flayout", "c")))
     assert d.shape == dshape and f.shape == fshape and d.dtype == dt and f.dtype == dt
